@@ -257,6 +257,8 @@ pub struct World {
     /// CONT was typed in such a history: it resumes on a value stack that holds the residue of a
     /// failed statement or frames of a direct statement (the history class of two C03 findings)
     pub cont_on_foreign_stack: bool,
+    /// fault knob: every Ctrl-C calls `interrupt()` twice before the next `execute()`
+    pub double_intr: bool,
     /// global API call sequence number
     pub seq: u64,
     pub log_hash: u64,
@@ -338,6 +340,7 @@ impl World {
             error_since_reset: false,
             direct_frames_since_reset: false,
             cont_on_foreign_stack: false,
+            double_intr: false,
             seq: 0,
             log_hash: 0xcbf2_9ce4_8422_2325,
             log: if keep_log { Some(vec![]) } else { None },
@@ -523,6 +526,13 @@ impl World {
         self.stats.bump("fault.interrupt");
         self.note("interrupt()".to_string());
         self.guarded("interrupt", MISC_BUDGET, |rt| rt.interrupt());
+        if self.double_intr {
+            // the signal is delivered twice before the next slice (the handler's flag and the line
+            // editor's own report): one break, not two
+            self.stats.bump("fault.interrupt_delivered_twice");
+            self.note("interrupt() [again]".to_string());
+            self.guarded("interrupt", MISC_BUDGET, |rt| rt.interrupt());
+        }
         self.events.push(Ev::Break);
     }
 
